@@ -36,9 +36,41 @@ def faceOut (d : Nat) (p : Rat) (f : Json) : R Json := do
     | _, _ => []
   pure (obj [("force", ofRats (listOf d (faceForce d n k al p))), ("jump", ofRats jump)])
 
+def parseFC (j : Json) : R (Nat × Rat) := do
+  match j with
+  | .arr a =>
+    if a.size != 2 then throw "face-cell pair expected" else
+    pure ((← jNat a[0]!), (← jRat a[1]!))
+  | _ => throw "face-cell pair expected"
+
+/-- op "biot2d": a whole 2-D grid in the format of C13's op "grid" plus one coupling tensor per cell.  Answers the
+    decidable hypotheses of `biot2d_div_u_exact` / `biot2d_grad_p_const` (wf, alldir, certified) and, column by column,
+    displacement_divergence, boundary_displacement_divergence, scalar_gradient and mpsa_consistency assembled from the
+    certified MPSA local solves of `C13.GridS`. -/
+def handleBiot2d (j : Json) : R Json := do
+  let G : PorepyVerif.C13.GridS :=
+    { nodes := (← fRatss j "nodes"), faceNodes := (← fNatss j "face_nodes"),
+      faceCells := (← (field j "face_cells" >>= jList (jList parseFC))),
+      cellCenters := (← fRatss j "cell_centers"), faceCenters := (← fRatss j "face_centers"),
+      faceNormals := (← fRatss j "face_normals"), volShare := (← fRats j "vol_share"),
+      isDir := (← (field j "is_dir" >>= jList jBool)), eta := (← fRat j "eta"),
+      lam := (← fRat j "lam"), mu := (← fRat j "mu") }
+  let als ← field j "alpha" >>= jList (jList (jList jRat))
+  let al : Nat → PorepyVerif.C13.Mat 2 := fun c => PorepyVerif.C13.matOfLists (als.getD c [])
+  let wf := decide G.WF
+  let head := [("wf", Json.bool wf), ("alldir", Json.bool (Biot2.allDir G)),
+               ("vol", ofRats ((List.range G.numCells).map (Biot2.cellVol G)))]
+  match G.certs with
+  | none => pure (obj (head ++ [("certified", Json.bool false)]))
+  | some Ls =>
+    let (dc, df, gp, st) := Biot2.columns G Ls al
+    pure (obj (head ++ [("certified", Json.bool true), ("div_cols", ofList ofRats dc), ("bdiv_cols", ofList ofRats df),
+                        ("gradp_cols", ofList (ofList ofRats) gp), ("stab_cols", ofList ofRats st)]))
+
 def step (j : Json) : R Json := do
   let op ← fStr j "op"
   match op with
+  | "biot2d" => handleBiot2d j
   | "grid" =>
     let d ← fNat j "d"
     let A := matOf (← fRatss j "A")
